@@ -415,6 +415,7 @@ class DFXPWriter(BaseWriter):
 
     def _recreate_styling_tag(self, style, content, dfxp):
         # TODO - should be drastically simplified: if attributes : append
+        style = _escape_attr(style)
         dfxp_style = dfxp.new_tag('style')
         dfxp_style.attrs.update({'xml:id': style})
 
